@@ -21,7 +21,13 @@ Proved here, over the abstract instantiation:
 * `sVector_length`, `verificationScalars_lengths` — the vectors fed to the multiscalar
                           multiplication have equal lengths (no size-hint assertion can fire; used by C08).
 
-Not proved (stated in DESIGN.md): knowledge soundness of Bulletproofs (an extractor).
+* `poly_extract`, `Epoly_eq_zero_iff` — first step of the extractor: three accepting transcripts with the
+                          same `A, S, y, z, T₁, T₂` and distinct `x` open `δ•G + Σ z^{2+j}•V_j`, `T₁`, `T₂`.
+* `challenges_some`, `verificationScalars_some`, `challengeTrace_spec` — the challenge list compared by the
+                          correspondence is the verifier's own.
+
+Not proved (stated in DESIGN.md): the rest of the knowledge-soundness argument of Bulletproofs (extraction
+through the inner-product rounds, and from the aggregate opening to the individual `V_j`).
 Completeness of the aggregated prover for every admissible split is `Zk.Props.C05.Range.complete`
 (built on `Zk.Range.prove_complete` in `Proofs/RangeProve.lean`).
 -/
@@ -216,6 +222,60 @@ theorem mega_batched_sound [DecidableEq F] (eipp epoly : G) (h : eipp ≠ 0 ∨ 
     · exact Or.inr (neg_ne_zero.mpr h))
   refine ⟨S, hS, fun d hd => hw d ?_⟩
   rw [smul_neg, ← sub_eq_add_neg]; exact hd
+
+/-! ## towards knowledge soundness: the polynomial-commitment step -/
+
+/-- the residual `Epoly` vanishes iff `t_x•G + t̃•H = W + x•T₁ + x²•T₂` with
+    `W = δ(y,z)•G + Σ z^{2+j}•V_j` -/
+theorem Epoly_eq_zero_iff (comms : List G) (bls : List ℕ) (pf : Proof F G) (c : Challenges F) :
+    Epoly comms bls pf c = 0 ↔
+      pf.tx • Gp + pf.txBlinding • Hp =
+        (delta bls c.y c.z • Gp + msm ((powers c.z bls.length).map (c.z * c.z * ·)) comms)
+          + c.x • pf.T1 + (c.x * c.x) • pf.T2 := by
+  unfold Epoly
+  rw [sub_eq_zero]
+  constructor <;> intro h <;> rw [h] <;> abel
+
+/-- **first step of the Bulletproofs extractor** (special soundness in the challenge `x`): three accepting
+    polynomial-commitment equations `t_i•B + b_i•H = W + x_i•T₁ + x_i²•T₂` with the same `W, T₁, T₂`
+    and pairwise distinct `x_i` yield openings of `W`, `T₁` and `T₂` with respect to `(B, H)`.
+    (`W = δ(y,z)•B + Σ z^{2+j}•V_j` in `Epoly`; what is *not* proved is the rest of the extractor:
+    the inner-product argument and the step from the opening of `W` to the individual `V_j`.) -/
+theorem poly_extract (B H W T1 T2 : G) (x1 x2 x3 t1 t2 t3 b1 b2 b3 : F)
+    (h12 : x1 ≠ x2) (h13 : x1 ≠ x3) (h23 : x2 ≠ x3)
+    (e1 : t1 • B + b1 • H = W + x1 • T1 + (x1 * x1) • T2)
+    (e2 : t2 • B + b2 • H = W + x2 • T1 + (x2 * x2) • T2)
+    (e3 : t3 • B + b3 • H = W + x3 • T1 + (x3 * x3) • T2) :
+    ∃ a0 c0 a1 c1 a2 c2 : F,
+      W = a0 • B + c0 • H ∧ T1 = a1 • B + c1 • H ∧ T2 = a2 • B + c2 • H := by
+  set D : F := (x1 - x2) * (x1 - x3) * (x2 - x3) with hD
+  have hD0 : D ≠ 0 := by
+    rw [hD]
+    exact mul_ne_zero (mul_ne_zero (sub_ne_zero.mpr h12) (sub_ne_zero.mpr h13)) (sub_ne_zero.mpr h23)
+  have d12 : x1 - x2 ≠ 0 := sub_ne_zero.mpr h12
+  set u : F := (x2 - x3) * t1 - (x1 - x3) * t2 + (x1 - x2) * t3 with hu
+  set v : F := (x2 - x3) * b1 - (x1 - x3) * b2 + (x1 - x2) * b3 with hv
+  have k2 : D • T2 = u • B + v • H := by
+    rw [hD, hu, hv]
+    linear_combination (norm := module) -((x2 - x3) • e1 - (x1 - x3) • e2 + (x1 - x2) • e3)
+  have hT2 : T2 = (D⁻¹ * u) • B + (D⁻¹ * v) • H := by
+    have : T2 = D⁻¹ • (D • T2) := by rw [smul_smul, inv_mul_cancel₀ hD0, one_smul]
+    rw [this, k2]; module
+  have k1 : (x1 - x2) • T1 = (t1 - t2) • B + (b1 - b2) • H - (x1 * x1 - x2 * x2) • T2 := by
+    linear_combination (norm := module) e2 - e1
+  have hT1 : T1 = ((x1 - x2)⁻¹ * ((t1 - t2) - (x1 * x1 - x2 * x2) * (D⁻¹ * u))) • B
+      + ((x1 - x2)⁻¹ * ((b1 - b2) - (x1 * x1 - x2 * x2) * (D⁻¹ * v))) • H := by
+    have : T1 = (x1 - x2)⁻¹ • ((x1 - x2) • T1) := by rw [smul_smul, inv_mul_cancel₀ d12, one_smul]
+    rw [this, k1, hT2]; module
+  set a2 : F := D⁻¹ * u with ha2
+  set c2 : F := D⁻¹ * v with hc2
+  set a1 : F := (x1 - x2)⁻¹ * ((t1 - t2) - (x1 * x1 - x2 * x2) * a2) with ha1
+  set c1 : F := (x1 - x2)⁻¹ * ((b1 - b2) - (x1 * x1 - x2 * x2) * c2) with hc1
+  refine ⟨t1 - x1 * a1 - x1 * x1 * a2, b1 - x1 * c1 - x1 * x1 * c2, a1, c1, a2, c2, ?_, hT1, hT2⟩
+  · have hW : W = t1 • B + b1 • H - x1 • T1 - (x1 * x1) • T2 := by
+      linear_combination (norm := module) -e1
+    rw [hW, hT1, hT2]
+    module
 
 /-! ## lengths (no size-hint assertion of the multiscalar multiplication can fire) -/
 
